@@ -1066,6 +1066,214 @@ def run_completion_order(ctx, only=None):
                           'which worker finishes first', case=dict(c, kind='order-trials'), predicate='bytes equal for every completion order')
 
 
+# ===================================================================== history probes on the real objects
+
+def _b(x):
+    """canonical bytes of a result (ndarray, DataFieldRecordArray, tuples of them, scalars)"""
+    if isinstance(x, (tuple, list)):
+        return b'(' + b'|'.join(_b(y) for y in x) + b')'
+    if hasattr(x, 'field_name_list'):
+        return b'{' + b'|'.join(n.encode() + b'=' + np.ascontiguousarray(x[n]).tobytes() for n in sorted(x.field_name_list)) + b'}'
+    if isinstance(x, np.ndarray):
+        return str(x.dtype).encode() + str(x.shape).encode() + np.ascontiguousarray(x).tobytes()
+    return repr(x).encode()
+
+
+def history_subjects():
+    """(name, [factory variants], [(call name, f(obj, rss) -> result)], state snapshot or None, post-condition or None).
+    Every call must be a function of (constructor arguments, call arguments, seed) only."""
+    from skyllh.core.config import Config
+    from skyllh.core.random import RandomChoice
+    from skyllh.core.livetime import Livetime
+    from skyllh.core.times import LivetimeTimeGenerationMethod, TimeGenerator
+    from skyllh.core.parameters import Parameter, ParameterSet
+    from skyllh.core.background_generation import MCDataSamplingBkgGenMethod
+    from skyllh.core.scrambling import DataScrambler, UniformRAScramblingMethod
+    from skyllh.core.dataset import DatasetData
+    from skyllh.core.storage import DataFieldRecordArray as DFRA
+    cfg = Config()
+    subjects = []
+
+    # --- Livetime.draw_ontimes and the time generators built on it
+    ivs_a = np.array([[10., 20.], [30., 50.], [50., 60.], [80., 80.], [90., 100.]])
+    ivs_b = np.array([[0., 1.], [2., 2.5], [7., 19.]])
+
+    def on_time(ivs, lo=None, hi=None):
+        def post(res):
+            t = np.atleast_1d(np.asarray(res, dtype=np.float64))
+            ok = np.zeros(t.shape, dtype=bool)
+            for (l, u) in ivs:
+                ok |= (l <= t) & (t < u)
+            if lo is not None:
+                ok &= (lo <= t) & (t < hi)
+            return bool(np.all(ok))
+        return post
+    lt_calls = [
+        ('draw(size=7)', lambda o, r: o.draw_ontimes(r, 7), 'a'),
+        ('draw(size=5, t_min=35, t_max=95)', lambda o, r: o.draw_ontimes(r, 5, t_min=35., t_max=95.), ('a', 35., 95.)),
+        ('draw(size=4, t_min=55)', lambda o, r: o.draw_ontimes(r, 4, t_min=55.), None),
+        ('draw(size=3, t_max=15)', lambda o, r: o.draw_ontimes(r, 3, t_max=15.), None),
+        ('draw(size=2)', lambda o, r: o.draw_ontimes(r, 2), 'a'),
+    ]
+    subjects.append(('Livetime.draw_ontimes',
+                     [lambda: Livetime(ivs_a.copy()), lambda: Livetime(ivs_b.copy())],
+                     [(n, f) for n, f, _ in lt_calls],
+                     lambda o: o.uptime_mjd_intervals_arr.tobytes(),
+                     {'draw(size=7)': [on_time(ivs_a), on_time(ivs_b)], 'draw(size=2)': [on_time(ivs_a), on_time(ivs_b)],
+                      'draw(size=5, t_min=35, t_max=95)': [on_time(ivs_a, 35., 95.), None]}))
+    subjects.append(('TimeGenerator.generate_times',
+                     [lambda: TimeGenerator(LivetimeTimeGenerationMethod(Livetime(ivs_a.copy()))),
+                      lambda: TimeGenerator(LivetimeTimeGenerationMethod(Livetime(ivs_b.copy())))],
+                     [('times(6)', lambda o, r: o.generate_times(r, 6)),
+                      ('times(3, t_min=12, t_max=16)', lambda o, r: o.generate_times(r, 3, t_min=12., t_max=16.)),
+                      ('times(1)', lambda o, r: o.generate_times(r, 1))],
+                     lambda o: o.method.livetime.uptime_mjd_intervals_arr.tobytes(),
+                     {'times(6)': [on_time(ivs_a), on_time(ivs_b)], 'times(1)': [on_time(ivs_a), on_time(ivs_b)]}))
+
+    # --- RandomChoice
+    subjects.append(('RandomChoice.__call__',
+                     [lambda: RandomChoice(np.arange(6) * 2, np.array([0, .25, 0, .5, .25, 0])),
+                      lambda: RandomChoice(np.arange(4) + 100, np.array([.5, 0, 0, .5], dtype=np.float32))],
+                     [('choice(5)', lambda o, r: o(r, 5)), ('choice(0)', lambda o, r: o(r, 0)),
+                      ('choice(11)', lambda o, r: o(r, 11)), ('choice(1)', lambda o, r: o(r, 1))],
+                     lambda o: o.items.tobytes() + o.probabilities.tobytes() + o._cdf.tobytes(), None))
+
+    # --- ParameterSet.generate_random_floating_param_initials
+    subjects.append(('ParameterSet.generate_random_floating_param_initials',
+                     [lambda: ParameterSet([Parameter('a', 1., 0., 2.), Parameter('b', 3., 1., 9.), Parameter('c', 5.)]),
+                      lambda: ParameterSet([Parameter('x', 0., -1., 1.)])],
+                     [('initials', lambda o, r: o.generate_random_floating_param_initials(r)),
+                      ('initials+values', lambda o, r: (o.generate_random_floating_param_initials(r), o.floating_param_bounds))],
+                     lambda o: o.floating_param_bounds.tobytes() + o.floating_param_initials.tobytes(), None))
+
+    # --- UniformRAScramblingMethod / DataScrambler
+    def evs(n, off=0.):
+        return DFRA(np.array([(0.1 * i + off, 0.01 * i, 2. + i) for i in range(n)],
+                             dtype=[('ra', np.float64), ('dec', np.float64), ('log_energy', np.float64)]))
+    subjects.append(('DataScrambler.scramble_data',
+                     [lambda: DataScrambler(UniformRAScramblingMethod()),
+                      lambda: DataScrambler(UniformRAScramblingMethod(ra_range=(1., 2.)))],
+                     [('scramble(8 events, copy)', lambda o, r: o.scramble_data(r, None, evs(8), copy=True)),
+                      ('scramble(3 events)', lambda o, r: o.scramble_data(r, None, evs(3, 1.))),
+                      ('scramble(0 events)', lambda o, r: o.scramble_data(r, None, evs(0)))],
+                     None, None))
+
+    # --- MCDataSamplingBkgGenMethod.generate_events (RandomChoice cache keyed on the data instance)
+    class DS:
+        name = 'stub'
+
+    def mkdata(n, k):
+        mc = DFRA(np.array([(0.1 * i, 0.01 * i - 0.05, 2.0 + 0.25 * i, float((i * 7 + k) % 5)) for i in range(n)],
+                           dtype=[('ra', np.float64), ('dec', np.float64), ('log_energy', np.float64), ('mcweight', np.float64)]))
+        exp = DFRA(np.array([(0.1, 0.01, 2.0)], dtype=[('ra', np.float64), ('dec', np.float64), ('log_energy', np.float64)]))
+        return DatasetData(data_exp=exp, data_mc=mc, livetime=1.0)
+
+    def prob(dataset, data, events):
+        w = np.array(events['mcweight'], dtype=np.float64)
+        return w / w.sum()
+
+    class BkgBox:
+        """a method together with the two data sets it serves"""
+        def __init__(self, scramble):
+            self.m = MCDataSamplingBkgGenMethod(
+                cfg=cfg, get_event_prob_func=prob, get_mean_func=None,
+                data_scrambler=DataScrambler(UniformRAScramblingMethod()) if scramble else None,
+                keep_mc_data_fields=['mcweight'])
+            self.d1, self.d2 = mkdata(14, 0), mkdata(9, 3)
+
+        def snap(self):
+            return b''.join(_b(d.mc) + _b(d.exp) for d in (self.d1, self.d2))
+    subjects.append(('MCDataSamplingBkgGenMethod.generate_events',
+                     [lambda: BkgBox(True), lambda: BkgBox(False)],
+                     [('events(data1, mean=5, poisson)', lambda o, r: o.m.generate_events(r, DS(), o.d1, mean=5.0)),
+                      ('events(data2, mean=3, fixed)', lambda o, r: o.m.generate_events(r, DS(), o.d2, mean=3.0, poisson=False)),
+                      ('events(data1, mean=2, fixed)', lambda o, r: o.m.generate_events(r, DS(), o.d1, mean=2.0, poisson=False)),
+                      ('events(data2, mean=6, poisson)', lambda o, r: o.m.generate_events(r, DS(), o.d2, mean=6.0))],
+                     lambda o: o.snap(), None))
+    return subjects
+
+
+def run_history(ctx):
+    """same seed => same bytes on (i) a fresh object, (ii) an object that served other arguments before, (iii) the same
+    call repeated / after re-seeding, (iv) two instances used alternately; stored state and results stay untouched"""
+    from skyllh.core.random import RandomStateService
+    rng = ctx.rng
+    seeds = [0, rng.randint(1, 2 ** 31)] + ([rng.randint(1, 2 ** 31) for _ in range(3)] if ctx.thorough() else [])
+    for name, factories, calls, snap, posts in history_subjects():
+        for seed in seeds:
+            # (i) fresh reference per variant and call
+            ref = {}
+            for vi, fac in enumerate(factories):
+                for cn, f in calls:
+                    try:
+                        ref[(vi, cn)] = _b(f(fac(), RandomStateService(seed)))
+                    except Exception as ex:
+                        ref[(vi, cn)] = b'raised:' + exc_name(ex).encode()
+
+            def check(kind, vi, cn, got, hist):
+                ctx.case({'history': name, 'kind': kind, 'variant': vi, 'call': cn, 'seed': seed, 'hist': hist})
+                ctx.count('history:' + kind)
+                if got != ref[(vi, cn)]:
+                    ctx.violation(name, 'history-dependent', f'{cn} with seed {seed} after [{", ".join(hist)}] differs from the same '
+                                  'call on a fresh object', case={'kind': 'history', 'subject': name, 'probe': kind, 'variant': vi,
+                                                                 'call': cn, 'seed': seed, 'history': hist},
+                                  predicate='result is a function of (constructor arguments, call arguments, seed)')
+
+            def run(o, f, r):
+                try:
+                    return _b(f(o, r))
+                except Exception as ex:
+                    return b'raised:' + exc_name(ex).encode()
+            for vi, fac in enumerate(factories):
+                # post-conditions of the fresh results (on-time membership)
+                for cn, f in calls:
+                    pc = (posts or {}).get(cn)
+                    if pc and pc[vi]:
+                        o = fac()
+                        for prior_cn, prior_f in calls:
+                            if prior_cn != cn:
+                                run(o, prior_f, RandomStateService(seed + 1))
+                        try:
+                            res = f(o, RandomStateService(seed))
+                            if not pc[vi](res):
+                                ctx.violation(name, 'post-condition-after-history', f'{cn} after other calls violates its post-condition',
+                                              case={'kind': 'history', 'subject': name, 'variant': vi, 'call': cn, 'seed': seed})
+                        except Exception:
+                            pass
+                for ti, (cn, f) in enumerate(calls):
+                    # (iii) repeat, and repeat after re-seeding the same service
+                    o = fac()
+                    s0 = snap(o) if snap else None
+                    first = f(o, RandomStateService(seed)) if not ref[(vi, cn)].startswith(b'raised:') else None
+                    first_b = _b(first) if first is not None else None
+                    check('repeat', vi, cn, run(o, f, RandomStateService(seed)), [cn])
+                    r = RandomStateService(seed + 5)
+                    run(o, f, r)
+                    r.reseed(seed)
+                    check('reseed', vi, cn, run(o, f, r), [cn, cn + ' (other seed)', 'reseed'])
+                    if first is not None and _b(first) != first_b:
+                        ctx.violation(name, 'result-overwritten', f'the result of {cn} changed when the call was repeated',
+                                      case={'kind': 'history', 'subject': name, 'variant': vi, 'call': cn, 'seed': seed})
+                    # (ii) every other call first (each single one, and all of them), then the target
+                    others = [(n2, f2) for n2, f2 in calls if n2 != cn]
+                    for hist in [[x] for x in others] + [others, list(reversed(others))]:
+                        o = fac()
+                        for n2, f2 in hist:
+                            run(o, f2, RandomStateService(seed + 11))
+                        check('interleave', vi, cn, run(o, f, RandomStateService(seed)), [n2 for n2, _ in hist])
+                    if snap and snap(o) != s0:
+                        ctx.violation(name, 'stored-state-modified', f'stored data of the object changed by calls ending with {cn}',
+                                      case={'kind': 'history', 'subject': name, 'variant': vi, 'call': cn, 'seed': seed})
+            # (iv) two instances, built before first use, used alternately
+            if len(factories) >= 2:
+                o0, o1 = factories[0](), factories[1]()
+                for cn, f in calls + list(reversed(calls)):
+                    g0 = run(o0, f, RandomStateService(seed))
+                    g1 = run(o1, f, RandomStateService(seed))
+                    check('two-instances', 0, cn, g0, ['alternating with variant 1'])
+                    check('two-instances', 1, cn, g1, ['alternating with variant 0'])
+
+
 def static_scan(ctx):
     """no module of skyllh may use numpy's global generator or the `random` module"""
     bad = []
@@ -1134,6 +1342,7 @@ def run(ctx):
     run_seed(ctx)
     run_workers(ctx)
     run_completion_order(ctx)
+    run_history(ctx)
     run_trials(ctx)
     run_determinism(ctx)
     if not ctx.model_ok:
@@ -1168,6 +1377,8 @@ def replay(ctx, rp):
         run_completion_order(ctx, only=[(c['seed'], c['ncpu'], c['ntasks'])])
     elif kind == 'order-trials':
         run_completion_order(ctx)
+    elif kind == 'history':
+        run_history(ctx)
     elif kind == 'static':
         static_scan(ctx)
     else:
